@@ -1,19 +1,14 @@
-import YaclibModel.Proofs.CoSharedMutex
+import YaclibModel.Proofs.CoSharedMutexS_uUnlockP_1
+import YaclibModel.Proofs.CoSharedMutexS_uUnlockP_2
 namespace Yaclib.CoSharedMutex
 
-set_option maxHeartbeats 4000000 in
 theorem inv_uUnlockP {cfg : Cfg} {s : State} (hi : Inv cfg s) (c : Cid) (b : Branch) (h : s.pc c = .uUnl b) (hs : s.spin = .held c) (hb : needsWriter b = false) :
     Inv cfg ((doUUnlock s c b 0 [])) := by
-  cases b with
-  | runWriter => simp [needsWriter] at hb
-  | stored sw => simp [needsWriter] at hb
-  | readersPass sr =>
-      have hpa := hi.pend_amt c sr (Or.inl h)
-      cases hi
-      simp only [doUUnlock]; sm_auto [List.count_le_length]
-  | passOnly sr =>
-      have hpa := hi.pend_amt c sr (Or.inr h)
-      cases hi
-      simp only [doUUnlock]; sm_auto [List.count_le_length]
+  have hbd : b = .runWriter ∨ (∃ sw, b = .stored sw) ∨ (∃ sr, b = .readersPass sr) ∨ (∃ sr, b = .passOnly sr) := by cases b <;> simp
+  rcases hbd with hbr | ⟨sw, hbr⟩ | ⟨sr, hbr⟩ | ⟨sr, hbr⟩
+  · rw [hbr] at hb; simp [needsWriter] at hb
+  · rw [hbr] at hb; simp [needsWriter] at hb
+  · exact inv_uUnlockP_1 hi c b h hs hb sr hbr
+  · exact inv_uUnlockP_2 hi c b h hs hb sr hbr
 
 end Yaclib.CoSharedMutex
